@@ -325,9 +325,109 @@ def r06_f(prog: Program, chk: Check) -> None:
         raise AnchorError(f"{len(unsupported)} generic calls cannot be modelled; first: {unsupported[0]}")
 
 
+# ------------------------------------------------------------------- R06.g
+def _var_chunk(args):
+    part, nparts, wide = args
+    from ..model import AnchorError as _AE
+    from ..model import Program as _P
+    from . import call_model as cmod
+
+    model = cmod.VarCallModel(_P())
+    classes: Dict[str, Dict[str, object]] = {}
+    unsupported = []
+    n = 0
+
+    def fmt(ps):
+        out = []
+        i = 0
+        for k, d, a in ps:
+            if k == cmod.VP:
+                out.append(f"*args: {a}")
+            elif k == cmod.VK:
+                out.append(f"**kwargs: {a}")
+            else:
+                out.append(f"p{i}: {a}" + (" = <default>" if d else "") + {"POSITIONAL_ONLY": " /", "KEYWORD_ONLY": " (kw-only)", "POSITIONAL_OR_KEYWORD": ""}[k])
+                i += 1
+        return "def f(" + ", ".join(out) + ")"
+
+    def note(key: str, bad: bool, d) -> None:
+        c = classes.setdefault(key, {"n": 0, "bad": 0, "witness": []})
+        c["n"] += 1  # type: ignore[operator]
+        if bad:
+            c["bad"] += 1  # type: ignore[operator]
+            w = c["witness"]
+            w.append(d)  # type: ignore[union-attr]
+            w.sort(key=lambda x: (len(x["signature"]) + len(x["call"]), repr(x)))  # type: ignore[union-attr]
+            del w[4:]  # type: ignore[arg-type]
+
+    for idx, ps in enumerate(cmod.var_signatures()):
+        if idx % nparts != part:
+            continue
+        for pos, kw_ in cmod.var_calls(ps, wide):
+            n += 1
+            d = {"signature": fmt(ps), "call": "f(" + ", ".join([repr(x) for x in pos] + [f"{k}={v!r}" for k, v in kw_.items()]) + ")"}
+            try:
+                r = model.run_var(ps, pos, kw_)
+            except _AE as e:
+                unsupported.append({**d, "why": str(e)[:300]})
+                continue
+            ref = cmod.var_reference(ps, pos, kw_)
+            if isinstance(r[0], str):
+                note("no-crash", True, {**d, "error": r[1]})
+                continue
+            note("no-crash", False, d)
+            is_err, errs = r
+            note(f"diagnosed iff the call does not bind or an argument (also one collected by *args / **kwargs) is outside the declared type::{ref}", is_err != (ref != "ok"), {**d, "diagnosed": is_err, "messages": errs, "reference": ref})
+    return n, classes, unsupported
+
+
+def r06_g(prog: Program, chk: Check) -> None:
+    import multiprocessing as mp
+    import os as _os
+
+    chk.rule(
+        "R06.g",
+        "call checking of functions with typed *args / **kwargs as one interpreted stack: the tuple and the TypedDict that bind_arguments builds for the collected arguments are "
+        "checked against tuple[T, ...] / dict[str, T] by the container model (GenericValue / SequenceValue / TypedDictValue.can_assign interpreted). 88 signatures (an optional "
+        "positional-only / positional-or-keyword first parameter, *args and **kwargs annotated int / str / object, an optional keyword-only parameter) x calls with up to three "
+        "positionals and two keywords, among them keywords named like the positional-only parameter and like the *args parameter: diagnosed exactly when the call does not bind or "
+        "a collected argument is outside the declared element type",
+        floor=3,
+    )
+    selftest = bool(_os.environ.get("VERIF_SELFTEST"))
+    procs = 2 if selftest else min(16, _os.cpu_count() or 1)
+    nparts = procs * (6 if selftest else 2)
+    jobs = [(i, nparts, chk.tier == "thorough" and not selftest) for i in range(nparts)]
+    if selftest:
+        jobs = jobs[::3]
+    with mp.get_context("fork").Pool(procs) as pl:
+        results = pl.map(_var_chunk, jobs)
+    total = 0
+    merged: Dict[str, Dict[str, object]] = {}
+    unsupported = []
+    for n, classes, uns in results:
+        total += n
+        unsupported += uns
+        for k, c in classes.items():
+            m = merged.setdefault(k, {"n": 0, "bad": 0, "witness": []})
+            m["n"] += c["n"]  # type: ignore[operator]
+            m["bad"] += c["bad"]  # type: ignore[operator]
+            m["witness"] = sorted(list(m["witness"]) + list(c["witness"]), key=lambda x: (len(x["signature"]) + len(x["call"]), repr(x)))[:4]  # type: ignore[arg-type]
+    chk.model_evaluations += total
+    chk.analysed["var_call_model"] = {"calls": total, "not_modelled": len(unsupported)}
+    site = prog.site("signature", prog.func("signature", "Signature.bind_arguments"))
+    for k, c in sorted(merged.items()):
+        wit = c["witness"]
+        chk.ob("R06.g", f"signature::var-call-model::{k}", int(c["bad"]) == 0, site,  # type: ignore[arg-type]
+               f"{c['n']} calls, {c['bad']} failing" + (f"; smallest: {wit[0]}" if wit else ""), witness=wit)  # type: ignore[index]
+    if unsupported:
+        raise AnchorError(f"{len(unsupported)} calls cannot be modelled; first: {unsupported[0]}")
+
+
 def run(prog: Program, chk: Check) -> None:
     guard(chk, r06_cd, prog, chk)
     guard(chk, r06_a, prog, chk)
     guard(chk, r06_b, prog, chk)
     guard(chk, r06_e, prog, chk)
     guard(chk, r06_f, prog, chk)
+    guard(chk, r06_g, prog, chk)
